@@ -539,6 +539,7 @@ type SchedEntry struct {
 	Gor   int    `json:"gor"`
 	Auto  bool   `json:"auto"`
 	Wake  bool   `json:"wake"` // second phase of cond.Wait: consumed natively by the wrapped Locker's Lock
+	Sel   bool   `json:"sel"`  // a select: the native controller waits a little so that timers/tickers are ready
 }
 
 // scheduleEntries lists the fired transitions under a model for the native replay controller.
@@ -549,7 +550,7 @@ func (e *Engine) scheduleEntries(si *SchedInfo, model map[string]uint64) []Sched
 		if Eval(fr.Fire, model, memo) != 0 {
 			wake := fr.Phase > 0 && strings.Contains(fr.Op, "(*sync.Cond).Wait")
 			auto := !wake && (fr.Phase > 0 || strings.Contains(fr.Pos, "zz_verif_ab_rt_common.go") || !strings.Contains(fr.Pos, ".go:"))
-			out = append(out, SchedEntry{Pos: fr.Pos, Phase: fr.Phase, Gor: fr.Idx, Auto: auto, Wake: wake})
+			out = append(out, SchedEntry{Pos: fr.Pos, Phase: fr.Phase, Gor: fr.Idx, Auto: auto, Wake: wake, Sel: strings.HasPrefix(fr.Op, "select")})
 		}
 	}
 	return out
